@@ -464,6 +464,31 @@ def rand_datav(rng, cur_len, far, nmax=3):
     return dv, cur_len
 
 
+def rand_testv(rng, cur, far, p_wrong=0.1):
+    """one test vector (off, len, specimen) against current data `cur`.  Besides the exact clipped read (passes) and a
+    wrong specimen, a good fraction has len(specimen) != len on purpose, aimed at data that BEGINS with the specimen:
+    the specimen is a proper prefix of the bytes read (incl. the empty specimen = the publisher's must-not-exist
+    guard) or the read is a proper prefix of the specimen — both must FAIL: the code reads `len` bytes (clipped at
+    the end of the data) and compares them with the specimen for equality."""
+    r = rng.random()
+    if len(cur) >= 2 and r < 0.22:
+        o = rng.randrange(0, len(cur) - 1)
+        l = rng.randrange(2, min(len(cur) - o, 40) + 1) if len(cur) - o >= 2 else 1
+        k = rng.choice([0, 0, 1, l - 1, rng.randrange(0, l)])
+        return [o, l, hx(bytes(cur[o:o + min(k, l - 1)]))]           # specimen shorter than the bytes read
+    if len(cur) >= 2 and r < 0.32:
+        o = rng.randrange(0, len(cur) - 1)
+        l = rng.randrange(0, min(len(cur) - o - 1, 20) + 1)
+        extra = rng.randrange(1, min(len(cur) - o - l, 8) + 1)
+        return [o, l, hx(bytes(cur[o:o + l + extra]))]               # specimen longer than len (continues with the data)
+    o = rand_offset(rng, len(cur), far)
+    l = rng.choice([0, 1, 3, 10, 100])
+    spec = bytes(cur[o:o + l])
+    if rng.random() < p_wrong:
+        spec = spec + b"x"
+    return [o, l, hx(spec)]
+
+
 def rand_rv(rng, cur_len, far):
     rv = []
     for _ in range(rng.randrange(0, 4)):
